@@ -223,8 +223,57 @@ def gen_family_cross(rng, sched_rng) -> Dict[str, Any]:
     return {"part": "A", "knobs": {"regex_maxcache": None}, "ops": ops, "strategy": "family-cross"}
 
 
+def gen_abandon_recycle(rng, sched_rng) -> Dict[str, Any]:
+    """An iterator of a compiled query with a root-referencing filter is ABANDONED half-way
+    (closed, or dropped and collected); then the document goes too and the next one comes to lie
+    where it was -- or the caller changes the same document in place -- and the same compiled query
+    is evaluated over it, lazily or eagerly, while a sibling iterator may still be suspended.
+    (What clean-up code skips when a generator is closed instead of exhausted.)"""
+    roots = [x for x in SUSPEND_QUERIES if "$" in x[1:]]
+    q = rng.choice(roots) if rng.random() < 0.8 else rng.choice(("$.a[?@.a < $.d || !$.d]", "$[?@ == $.zz || !$.zz]", "$..[?!$.b && @.a]", "$.a[?count($.c.*) == 0 && @.a]"))
+    tree = D.random_tree(rng, max_nodes=rng.choice((8, 16, 30)), max_depth=rng.choice((3, 4)), p_dict=0.7)
+    if not isinstance(tree, dict):
+        tree = {"a": tree if isinstance(tree, list) else [tree, {"a": 1}], "b": 2}
+    # the first document lacks what the second has (and the other way round): the root queries
+    # of the filter select nothing in one and something in the other
+    first = {k: v for k, v in tree.items() if k not in ("b", "d", "c")} or {"a": [{"a": 1, "b": 2}, {"a": 3}]}
+    second = {**_perturb(rng, copy.deepcopy(first)), "b": rng.randint(0, 3), "d": rng.randint(0, 9), "c": {"a": 1}}
+    if rng.random() < 0.3:
+        first, second = second, first
+    env = rng.choice(("e0", "module"))
+    ops: List[Dict[str, Any]] = [
+        {"op": "new_env", "id": "e0", "spec": {"funcs": []}},
+        {"op": "new_doc", "id": "x0", "spec": {"json": first}},
+        {"op": "compile", "id": "c0", "env": env, "q": q},
+    ]
+    if rng.random() < 0.3:
+        ops.append({"op": "new_doc", "id": "d9", "spec": {"json": _perturb(rng, copy.deepcopy(second))}})
+        ops.append({"op": "iter_open", "id": "keep", "c": "c0", "doc": "d9"})
+        ops.append({"op": "iter_next", "it": "keep", "n": 1})
+    ops.append({"op": "iter_open", "id": "i0", "c": "c0", "doc": "x0"})
+    ops.append({"op": "iter_next", "it": "i0", "n": sched_rng.choice((1, 1, 2))})
+    ops.append({"op": sched_rng.choice(("iter_close", "iter_drop")), "it": "i0"})
+    if rng.random() < 0.65:
+        ops.append({"op": "forget_doc", "doc": "x0"})
+        ops.append({"op": "new_doc", "id": "d1", "spec": {"json": second}})
+        victim = "d1"
+    else:
+        for key in ("b", "d", "c"):
+            if (key in second) != (key in first):
+                ops.append({"op": "mutate_doc", "doc": "x0", "path": [], "action": "set", "key": key, "value": second.get(key, first.get(key))} if key in second else {"op": "mutate_doc", "doc": "x0", "path": [], "action": "del", "key": key})
+        victim = "x0"
+    if sched_rng.random() < 0.5:
+        ops.append({"op": "apply", "c": "c0", "doc": victim, "entry": sched_rng.choice(H.ENTRIES)})
+    else:
+        ops.append({"op": "iter_open", "id": "i1", "c": "c0", "doc": victim})
+        ops.append({"op": "iter_next", "it": "i1", "n": 50})
+    return {"part": "A", "knobs": {"regex_maxcache": None}, "ops": ops, "strategy": "abandon-recycle"}
+
+
 def gen_a(rng, sched_rng, tier: str) -> Dict[str, Any]:
     r0 = rng.random()
+    if r0 > 0.93:
+        return gen_abandon_recycle(rng, sched_rng)
     if r0 < 0.06:
         return gen_shared_candidates(rng, sched_rng)
     if r0 < 0.15:
